@@ -319,9 +319,11 @@ Proof.
            repeat split; [intros f; specialize (C1 f); rewrite cnt_app; cbn [cnt snd] | |]; lia.
       * (* Stuck *)
         case_eq (flag s); intros F.
-        -- apply inv_set_mst; [constructor; assumption | discriminate |].
-           intros _. left. split; [assumption |]. exists (mkpath Stuck a). auto.
-        -- constructor; cbn; try assumption; try discriminate.
+        -- destruct stuck_shutdown_escapes.
+           ++ apply inv_set_mst; [constructor; assumption | discriminate |].
+              intros _. left. split; [assumption |]. exists (mkpath Stuck a). auto.
+           ++ apply inv_set_mst; [constructor; assumption | intros _ X; congruence | discriminate].
+        -- unfold stuck_solved. constructor; cbn; try assumption; try discriminate.
            intros _. destruct (Icount F) as (C1 & C2 & C3). rewrite T in *. unfold pot_cnt, pend_cnt, stuck_counted in *.
            cbn [cnt potential succeeded confirmed_stuck kind ans andb] in *.
            repeat split; [intros f; specialize (C1 f); lia | | lia].
@@ -359,12 +361,29 @@ Proof.
     + intros M. destruct (Icrash M) as [[X _] | X]; [discriminate | right; assumption].
 Qed.
 
+(* with the `except Exception` handler a raising stuck-path solve is an ordinary main-loop step:
+   the from_error output is not `unsat`, exactly like the `err` result it stands for *)
+Lemma step_main_raise_eq : stuck_exception_escapes = false -> forall s, step_main_raise s = step_main s.
+Proof.
+  intros NE s. unfold step_main_raise.
+  destruct (mst s) eqn:M; try reflexivity.
+  destruct (todo s) as [| p rest] eqn:T; try reflexivity.
+  destruct (kind_action (kind p)) eqn:A; try reflexivity.
+  destruct (flag s) eqn:F; [reflexivity |].
+  destruct (is_err (ans p)) eqn:E; [| reflexivity].
+  rewrite NE. unfold step_main. rewrite M, T, A, F.
+  destruct (ans p); try discriminate E. reflexivity.
+Qed.
+
 Lemma inv_step_main_raise : forall ee ps s, inv ee true ps s -> inv ee true ps (step_main_raise s).
 Proof.
-  intros ee ps s I. unfold step_main_raise.
+  intros ee ps s I.
+  destruct stuck_exception_escapes eqn:NE; [| rewrite (step_main_raise_eq NE); apply inv_step_main; assumption].
+  unfold step_main_raise. rewrite NE.
   destruct (mst s) eqn:M; try (apply inv_step_main; assumption).
   destruct (todo s) as [| p rest] eqn:T; [apply inv_step_main; assumption |].
   destruct (kind_action (kind p)) eqn:A; try (apply inv_step_main; assumption).
+  destruct (flag s) eqn:F; [apply inv_step_main; assumption |].
   destruct (is_err (ans p)) eqn:E; [| apply inv_step_main; assumption].
   apply inv_set_mst; [assumption | discriminate |].
   intros _. right. split; [reflexivity |]. exists p.
@@ -807,4 +826,91 @@ Lemma schedule_no_early_exit : forall ps sched r,
 Proof.
   intros ps sched r N H. destruct (schedule_sound _ _ _ _ N H) as [-> | (X & _)]; [| discriminate X].
   split; [reflexivity | apply model_verdict_label].
+Qed.
+
+(* ------------------------------------------------------------------ the stuck-path solve is exception-safe
+   (fix e923044: try / except ShutdownError: break / except Exception: from_error output) *)
+
+(* what the regenerated source says about the two handlers; everything below rests on it *)
+Lemma stuck_handlers : stuck_shutdown_escapes = false /\ stuck_exception_escapes = false.
+Proof. split; reflexivity. Qed.
+
+Lemma step_main_crash : forall s, mst (step_main s) = MCrashed -> mst s = MCrashed \/ stuck_shutdown_escapes = true.
+Proof.
+  intros s H. unfold step_main in H. destruct (mst s) eqn:M.
+  - destruct (todo s); [cbn in H; discriminate H |]. destruct (flag s); cbn in H; discriminate H.
+  - destruct (todo s) as [| p rest]; [cbn in H; discriminate H |].
+    destruct (kind_action (kind p)); try (cbn in H; discriminate H).
+    destruct (flag s); [| cbn in H; discriminate H].
+    destruct stuck_shutdown_escapes; [right; reflexivity | cbn in H; discriminate H].
+  - congruence.
+  - left. reflexivity.
+Qed.
+
+Lemma step_crash : forall ee s e, mst (step ee s e) = MCrashed ->
+  mst s = MCrashed \/ stuck_shutdown_escapes = true \/ stuck_exception_escapes = true.
+Proof.
+  intros ee s e H. destruct e; cbn [step] in H.
+  - destruct (step_main_crash s H) as [X | X]; auto.
+  - destruct stuck_exception_escapes eqn:NE; [auto |]. rewrite (step_main_raise_eq NE) in H.
+    destruct (step_main_crash s H) as [X | X]; auto.
+  - unfold step_cb in H. destruct (take j (pending s)) as [[a rest] |]; [cbn in H |]; auto.
+Qed.
+
+(* run_test never raises: no interleaving of main-loop steps, callbacks and failing stuck-path solves
+   leaves the loop through an exception *)
+Lemma never_crashes : forall ee ps sched, mst (run ee ps sched) <> MCrashed.
+Proof.
+  intros ee ps sched. unfold run. destruct stuck_handlers as [N1 N2].
+  assert (G : forall s, mst s <> MCrashed -> mst (fold_left (step ee) sched s) <> MCrashed).
+  { induction sched as [| e r IH]; intros s H; cbn [fold_left]; [assumption |]. apply IH. intros X.
+    destruct (step_crash ee s e X) as [Y | [Y | Y]]; [contradiction | congruence | congruence]. }
+  apply G. cbn. discriminate.
+Qed.
+
+(* an exception of the stuck-path solve is the same step as an `err` answer of that solve *)
+Definition unraise (e : event) : event := match e with EvMainRaise => EvMain | _ => e end.
+
+Lemma run_unraise : forall ee ps sched, run ee ps sched = run ee ps (map unraise sched).
+Proof.
+  intros ee ps sched. unfold run. generalize (init ps).
+  induction sched as [| e r IH]; intros s; cbn [fold_left map]; [reflexivity |].
+  rewrite IH. f_equal. destruct e; cbn [unraise step]; try reflexivity.
+  apply step_main_raise_eq. exact (proj2 stuck_handlers).
+Qed.
+
+(* the executor is already shut down when the main loop reaches a stuck path: the loop ends *)
+Lemma shutdown_ends_loop : forall s p rest,
+  mst s = MBody -> todo s = p :: rest -> kind p = Stuck -> flag s = true -> step_main s = set_mst s MDone.
+Proof.
+  intros s [k a] rest M T K F. cbn [kind] in K. subst k. unfold step_main. rewrite M, T. cbn [kind kind_action classify orb negb].
+  rewrite F. reflexivity.
+Qed.
+
+(* full strength: every finished run, with or without --early-exit, whatever fails in a stuck-path solve *)
+Lemma schedule_full : forall ee ps sched r,
+  result (run ee ps sched) = Some r -> r = model_verdict ps /\ fst r = spec_verdict ps.
+Proof.
+  intros ee ps sched r H.
+  assert (E : r = model_verdict ps); [| split; [assumption | rewrite E; apply model_verdict_label]].
+  pose proof (never_crashes ee ps sched) as NC.
+  pose proof (inv_run ee true ps sched (fun X => False_ind _ (Bool.diff_true_false X))) as I.
+  set (s := run ee ps sched) in *.
+  destruct I as [Isub Ipend Iouts Iflag Icount Idone Icrash]. unfold result in H.
+  destruct (mst s) eqn:M; try discriminate; [| contradiction].
+  destruct (pending s) eqn:P; [| discriminate]. inversion H; subst r.
+  destruct (flag s) eqn:F.
+  - destruct (Iflag eq_refl) as [_ Hs]. rewrite (sat_out_fail _ _ _ _ Hs).
+    destruct (Iouts _ Hs) as (p & Hin & Hp & Ha).
+    rewrite model_verdict_counts.
+    set (cs := pot_cnt is_sat ps) in *.
+    assert (0 < cs).
+    { unfold cs, pot_cnt. apply cnt_pos. apply existsb_exists. exists p. rewrite Hp, Ha. auto. }
+    symmetry. apply chain_sat; lia.
+  - destruct (Icount eq_refl) as (C1 & C2 & C3). pose proof (Idone eq_refl eq_refl) as TD.
+    rewrite TD in C2, C3. setoid_rewrite TD in C1.
+    unfold model_verdict. rewrite stuck_count_eq, normal_count_eq.
+    cbn [cnt] in C2, C3. rewrite Nat.add_0_r in C2, C3. rewrite <- C2, <- C3.
+    apply verdict_of_counts. intros f. rewrite submitted_cnt. specialize (C1 f).
+    unfold pend_cnt in C1. unfold pot_cnt in C1 at 1. cbn [cnt] in C1. lia.
 Qed.
